@@ -779,9 +779,22 @@ func checkSizeVsWrite(p *core.Prog, r *core.Report) {
 	// size side: kvEntryByteSize returns Σ components; kvByteSize adds 1 + uvarint(entry) + entry per entry
 	sizeComps := func(fn *ssa.Function, perIter bool) comp {
 		out := comp{}
+		// arithmetic helpers of the package (single block, integers in, integer out) are read through: their parameters
+		// stand for the arguments of the call being expanded
+		subst := map[ssa.Value]ssa.Value{}
+		resolve := func(v ssa.Value) ssa.Value {
+			for i := 0; i < 4; i++ {
+				w, ok := subst[core.SkipConv(v)]
+				if !ok {
+					break
+				}
+				v = w
+			}
+			return v
+		}
 		var collect func(v ssa.Value, sign int)
 		collect = func(v ssa.Value, sign int) {
-			v = core.SkipConv(v)
+			v = core.SkipConv(resolve(v))
 			switch x := v.(type) {
 			case *ssa.BinOp:
 				if x.Op == token.ADD {
@@ -797,17 +810,31 @@ func checkSizeVsWrite(p *core.Prog, r *core.Report) {
 				}
 			case *ssa.Call:
 				if b, ok := x.Call.Value.(*ssa.Builtin); ok && b.Name() == "len" {
-					out["len("+valName(x.Call.Args[0])+")"] += sign
+					out["len("+valName(resolve(x.Call.Args[0]))+")"] += sign
 					return
 				}
 				if cl := core.CommonCallee(x.Common()); cl != nil {
 					switch cl.Name() {
 					case "uvarintByteCount":
-						out["uv("+sizeArg(x.Call.Args[0])+")"] += sign
+						out["uv("+sizeArg(resolve(core.SkipConv(x.Call.Args[0])))+")"] += sign
 						return
 					case "kvEntryByteSize":
 						out["entry"] += sign
 						return
+					}
+					if h := core.StaticFn(x.Common()); h != nil && h.Pkg == fn.Pkg && len(h.Blocks) == 1 && isIntType(x.Type()) && len(subst) < 8 {
+						if rt, ok := h.Blocks[0].Instrs[len(h.Blocks[0].Instrs)-1].(*ssa.Return); ok && len(rt.Results) == 1 {
+							for i, hp := range h.Params {
+								if i < len(x.Call.Args) {
+									subst[hp] = resolve(x.Call.Args[i])
+								}
+							}
+							collect(rt.Results[0], sign)
+							for _, hp := range h.Params {
+								delete(subst, hp)
+							}
+							return
+						}
 					}
 				}
 			case *ssa.Phi:
